@@ -672,7 +672,12 @@ func storeMode(seed int64, histories int, out *json.Encoder) error {
 				if rng.Intn(4) == 0 {
 					blocks[b] = append(blocks[b], opT{k: k, del: true})
 				} else {
-					blocks[b] = append(blocks[b], opT{k: k, v: []byte(fmt.Sprintf("v%d", rng.Intn(5)))})
+					v := []byte(fmt.Sprintf("v%d", rng.Intn(5)))
+					if rng.Intn(4) == 0 { // a value that is exactly as long as a digest (and is one)
+						d := sha256.Sum256(v)
+						v = d[:]
+					}
+					blocks[b] = append(blocks[b], opT{k: k, v: v})
 				}
 			}
 		}
